@@ -8,28 +8,29 @@ Local Open Scope Z_scope.
    ([one_value]: starting with one value expected, every write is expected and nothing is
    left expected at the end).  For every reachable server state (any keyspace, any number of
    connections in any MULTI/WATCH state with any queue), every connection, every command
-   name other than MGET - known or unknown - every argument vector and every clock reading:
+   name - known or unknown - every argument vector and every clock reading:
    the command writes exactly one value, inside or outside MULTI, including EXEC's array of
    the queued commands' replies; and the invariant is kept, so it holds for whole histories. *)
-Theorem C16_one_reply_modulo_findings : forall c name args now s s' acts,
-  server_ok s -> bytes_eqb n_MGET name = false ->
+Theorem C16_one_reply : forall c name args now s s' acts,
+  server_ok s ->
   serve c name args now s = Some (s', acts) -> one_value acts = true /\ server_ok s'.
 Proof. exact serve_one. Qed.
-Print Assumptions C16_one_reply_modulo_findings.
+Print Assumptions C16_one_reply.
 
 Theorem C16_initial_state_ok : forall peb, server_ok (server_new peb).
 Proof. intro peb. constructor. Qed.
 
-(* the excluded command really deviates: MGET over a key of another type writes the array
-   header, stops and appends an error line - not one value *)
-Theorem C16_mget_refuted : exists args now d,
-  match h_mget args with HBody b => bres_one (b now d) = false | _ => False end.
-Proof. exact mget_not_one. Qed.
-Print Assumptions C16_mget_refuted.
+(* MGET used to be excluded (a key of another type left a partial array followed by an error line,
+   theorem C16_mget_refuted of earlier revisions); since the repair of mGet it reads every value before
+   it writes the header, and is a handler like the others *)
+Theorem C16_mget_one : forall args,
+  match h_mget args with HBody b => forall now d, bres_one (b now d) = true | _ => True end.
+Proof. exact one_h_mget. Qed.
+Print Assumptions C16_mget_one.
 
 (* every handler of the table, one by one (what C16_one_reply rests on) *)
 Theorem C16_every_handler : forall name h,
-  lookup_cmd name cmd_table = Some h -> bytes_eqb n_MGET name = false -> handler_one h.
+  lookup_cmd name cmd_table = Some h -> handler_one h.
 Proof. exact table_one. Qed.
 Print Assumptions C16_every_handler.
 
